@@ -53,6 +53,10 @@ def make_jobs(rng, d, njobs, nfiles):
         os.makedirs(os.path.join(d, f"d{f}"), exist_ok=True)
         path = os.path.join(f"d{f}", "data.csv")
         runner.write_csv(os.path.join(d, path), records, **dia)
+        # the file that may later be put at the same path (History!Rewrite): same header row and column kinds, other rows
+        rows2 = [hdr] + [[lang.FileSpec.cell(rng, kd) for kd in fs.kinds] for _ in range(rng.randint(1, 7))]
+        runner.write_csv(os.path.join(d, path + ".v2"), rows2, **dia)
+        shutil.copyfile(os.path.join(d, path), os.path.join(d, path + ".v1"))
         files.append((path, fs, dia, records, tiny))
     jobs = []
     for j in range(njobs):
@@ -104,9 +108,16 @@ def _replay(args):
     jobs, files = make_jobs(rng, d, njobs, nfiles)
     # the oracle the quantifier names: each job run first, in a fresh process, with an empty cache
     ref = {}
+    rewritten = {s["j"] for s in hist if s["op"] == "rewrite"}
     for j, job in enumerate(jobs):
         shutil.rmtree(os.path.join(d, "cache"), ignore_errors=True)
-        ref[j + 1] = run_process(d, [dict(job, via="direct")])[0]
+        ref[(j + 1, 1)] = run_process(d, [dict(job, via="direct")])[0]
+        if ((j % nfiles) + 1) in rewritten:
+            # the same job over the file that is put there later
+            shutil.copyfile(os.path.join(d, job["file"] + ".v2"), os.path.join(d, job["file"]))
+            shutil.rmtree(os.path.join(d, "cache"), ignore_errors=True)
+            ref[(j + 1, 2)] = run_process(d, [dict(job, via="direct")])[0]
+            shutil.copyfile(os.path.join(d, job["file"] + ".v1"), os.path.join(d, job["file"]))
     shutil.rmtree(os.path.join(d, "cache"), ignore_errors=True)
     shutil.rmtree(os.path.join(d, "archive"), ignore_errors=True)
     # the history, one interpreter per segment
@@ -117,6 +128,9 @@ def _replay(args):
             cur = []
         elif st["op"] == "clearcache":
             cur.append({"op": "clearcache"})
+        elif st["op"] == "rewrite":
+            path = files[st["j"] - 1][0]
+            cur.append({"op": "rewrite", "file": path, "v2": path + ".v2"})
         else:
             cur.append(dict(jobs[st["j"] - 1], via=st["via"], named=(st["via"] == "named"), _j=st["j"], _st=st))
     segs.append(cur)
@@ -131,13 +145,13 @@ def _replay(args):
                 continue
             got = res[ri]
             ri += 1
-            exp = ref[s["_j"]]
+            exp = ref[(s["_j"], s["_st"]["ver"])]
             if got != exp:
                 diff = [k for k in exp if got.get(k) != exp.get(k)]
                 shutil.rmtree(d, ignore_errors=True)
                 return {"kind": "history", "fields": diff, "job": s["text"], "via": s["via"], "cache_was": s["_st"]["cacheWas"],
                         "in_memory": s["_st"]["memWas"], "process_used_before": s["_st"]["usedWas"],
-                        "history": [{k: h[k] for k in ("op", "j", "via")} for h in hist],
+                        "history": [{k: h[k] for k in ("op", "j", "via")} for h in hist], "file_version": s["_st"]["ver"],
                         "expected": {k: exp[k] for k in diff}, "got": {k: got.get(k) for k in diff},
                         "file_header_row": next((f[3][0] for f in files if f[0] == s["file"]), None)}
     shutil.rmtree(d, ignore_errors=True)
@@ -181,6 +195,19 @@ def main(tier):
     hists += key[: cap] + rest[: max(0, cap - len(key))]
     # one name registered with content X, then Y, then X again (the jobs run as named runs)
     hists += [h for h in full if aba(h, nfiles) and h not in hists][: 12 if tier == "quick" else 200]
+    # another file put at a path between two jobs on that path in one process (History!Rewrite)
+    def rewritten_between(h):
+        for i, s_ in enumerate(h):
+            if s_["op"] == "rewrite":
+                f_ = s_["j"]
+                before = any(x["op"] == "job" and ((x["j"] - 1) % nfiles) + 1 == f_ for x in h[:i])
+                after = any(x["op"] == "job" and ((x["j"] - 1) % nfiles) + 1 == f_ for x in h[i + 1:])
+                if before and after:
+                    return True
+        return False
+    rw = [h for h in full if rewritten_between(h) and h not in hists]
+    rng.shuffle(rw)
+    hists += rw[: 20 if tier == "quick" else 400]
     with open(os.path.join(spec, "_gen_H_sim.cfg"), "w") as f:
         f.write(cfg(sim[1], emit=True))
     r3 = require_ok(run_tlc("History", "_gen_H_sim.cfg", timeout=600, keep_stdout=False, workers=1, simulate=f"num={sim[0]}",
@@ -204,7 +231,7 @@ def main(tier):
             rep.violation(d, finding=classify(d))
     rep.extra.update({"histories_replayed": len(hists), "situations_exercised (via, disk cache, in memory, process used before)": sorted(map(list, combos))})
     rep.rule = (f"histories over 3 generated (csvpath, file) jobs on 2 files whose header cells contain quotes, delimiters and blanks: all histories of "
-                f"length {emit_len} and random ones of length {sim[1]} (jobs direct or through a CsvPaths instance, new process, clear cache), "
+                f"length {emit_len} and random ones of length {sim[1]} (jobs direct, through a CsvPaths instance or as named runs; new process; clear cache; another file put at a path), "
                 "each segment in a fresh interpreter, compared with the same job run first in a fresh process with an empty cache.")
     rep.assumptions = ["TLC; History.tla", "one CsvPaths instance per process for the 'paths' route", "the reference processes run with PYTHONHASHSEED=0, every process of a history with another seed"]
     return rep.finish()
